@@ -119,7 +119,7 @@ func (m SetModel) apply(o *MgmtOp) SetModel {
 // SalRule renders the body used by the management-history workloads: start
 // event, the rule's own view of its salience, a version-tagged return.
 func SalRule(id, sal, ver int) string {
-	return fmt.Sprintf("rule \"%d\" \"d%dv%d\" salience %d\nbegin\nH.S(%d,%d)\nH.Sal(%d,@sal)\nreturn %d\nend\n", id, id, ver, sal, id, ver, id, ver*1000+id)
+	return fmt.Sprintf("rule \"%d\" \"d%dv%d\" salience %d\nbegin\nH.S(%d,%d)\nH.Sal(%d,@sal)\nH.Meta(%d,%d,@name,@desc,@id)\nreturn %d\nend\n", id, id, ver, sal, id, ver, id, id, ver, ver*1000+id)
 }
 
 func renderOpText(o *MgmtOp) string {
@@ -153,9 +153,30 @@ const EvSal = 43 // a rule reports its own salience: B = rule, C = @sal
 
 func (h *H) Sal(r, s int64) { simrt.Emit(EvSal, int64(h.c.Idx), r, s) }
 
+const EvMeta = 44 // a rule reports its own @name/@desc/@id: B = rule, C = bit mask of the ones that are right
+
+// Meta compares the rule's metadata constants with what its text declared.
+func (h *H) Meta(r, v int64, name, desc string, id int64) {
+	ok := int64(0)
+	if name == strconv.FormatInt(r, 10) {
+		ok |= 1
+	}
+	if desc == fmt.Sprintf("d%dv%d", r, v) {
+		ok |= 2
+	}
+	if id == r {
+		ok |= 4
+	}
+	simrt.Emit(EvMeta, int64(h.c.Idx), r, ok)
+}
+
 // GenMgmtOp draws one builder-level management operation.
 func (g *G) GenMgmtOp(cur SetModel, nNames, salSpan int, ver *int, kinds []int, invalidPct int) *MgmtOp {
 	o := &MgmtOp{Kind: g.PickInt(kinds)}
+	if o.Kind == OpFull && len(g.Hist) > 0 && g.Pct(20) {
+		h := g.Hist[g.Intn(len(g.Hist))]
+		return &MgmtOp{Kind: OpFull, Rules: h.Rules, Text: h.Text}
+	}
 	switch o.Kind {
 	case OpFull, OpIncr:
 		k := g.Range(1, 4)
@@ -182,6 +203,8 @@ func (g *G) GenMgmtOp(cur SetModel, nNames, salSpan int, ver *int, kinds []int, 
 		if g.Pct(invalidPct) {
 			o.Invalid = true
 			o.Text = breakText(o.Text, g.Intn(5))
+		} else if o.Kind == OpFull {
+			g.Hist = append(g.Hist, o)
 		}
 	case OpRemove:
 		switch g.Intn(5) {
@@ -205,7 +228,10 @@ func (g *G) GenMgmtOp(cur SetModel, nNames, salSpan int, ver *int, kinds []int, 
 }
 
 // observeSort executes the sort model and returns the (id, ver, @sal) triples in execution order.
-type obsRule struct{ ID, Ver, Sal int }
+type obsRule struct {
+	ID, Ver, Sal int
+	Meta         int // -1: not reported
+}
 
 func obsFromEvents(evs []simrt.Event, call int) []obsRule {
 	var out []obsRule
@@ -215,11 +241,18 @@ func obsFromEvents(evs []simrt.Event, call int) []obsRule {
 		}
 		switch e.Kind {
 		case EvS:
-			out = append(out, obsRule{ID: int(e.B), Ver: int(e.C), Sal: -999})
+			out = append(out, obsRule{ID: int(e.B), Ver: int(e.C), Sal: -999, Meta: -1})
 		case EvSal:
 			for i := len(out) - 1; i >= 0; i-- {
 				if out[i].ID == int(e.B) {
 					out[i].Sal = int(e.C)
+					break
+				}
+			}
+		case EvMeta:
+			for i := len(out) - 1; i >= 0; i-- {
+				if out[i].ID == int(e.B) {
+					out[i].Meta = int(e.C)
 					break
 				}
 			}
@@ -240,6 +273,9 @@ func checkObserved(obs []obsRule, m SetModel, where string, add func(clause, det
 		}
 		if mr.Ver != o.Ver {
 			add("ruleset-wrong-version", "", fmt.Sprintf("%s: rule %d ran as v%d, the denoted set has v%d", where, o.ID, o.Ver, mr.Ver))
+		}
+		if o.Meta >= 0 && o.Meta != 7 {
+			add("ruleset-wrong-metadata", "", fmt.Sprintf("%s: rule %d v%d reports wrong @name/@desc/@id (ok mask %03b)", where, o.ID, o.Ver, o.Meta))
 		}
 		if o.Sal != -999 && mr.Sal != o.Sal {
 			add("ruleset-wrong-salience", "", fmt.Sprintf("%s: rule %d reports salience %d, the denoted set has %d", where, o.ID, o.Sal, mr.Sal))
